@@ -92,6 +92,10 @@ struct Builder {
 		it.rule.par = it.state;
 		const int ar = ref::arity(it.rule.sym);
 		for (int i = 0; i < ar; ++i) it.rule.ch.push_back(pick(r[3 + static_cast<size_t>(i)]));
+		// a third of the biased non-unary rules repeat their first child at every position (f(q,q)): the shape in
+		// which one state must be combined with itself under two different macro-states
+		if (biased && ar >= 2 && (r[0] / 128) % 3 == 0)
+			for (int i = 1; i < ar; ++i) it.rule.ch[static_cast<size_t>(i)] = it.rule.ch[0];
 		if (std::find(owners.begin(), owners.end(), it.state) == owners.end()) owners.push_back(it.state);
 		return it;
 	}
